@@ -32,11 +32,10 @@ THEOREMS = [
     "C20_line_layout", "C20_line_numbering", "C20_line_count", "C20_line_one_line_per_field_partial",
     "C20_line_one_line_per_field_refuted", "C20_line_alignment",
     "C20_text_is_repr_or_template", "C20_text_plain_template", "C20_text_placeholder", "C20_text_spec_on_none_refuted",
-    "C20_total_partial", "C20_total_lone_surrogate_refuted",
+    "C20_total_partial", "C20_csv_accepts_escaped_bytes", "C20_csv_total_refuted", "C20_total_lone_surrogate_refuted",
     "C20_normalize_idempotent", "C20_normalize_first_char", "C20_normalize_valid_on_simple_names",
     "C20_csv_read_back",
 ]
-FINDING_THEOREMS = ["C20_csv_total_refuted"]
 TS = _pydt.datetime(2020, 1, 2, 3, 4, 5, tzinfo=_pydt.timezone.utc)
 
 # ------------------------------------------------------------------------------------------------
@@ -157,7 +156,7 @@ def gen_value(rnd, tname, hostile=True):
             "2022-03-04T05:06:07.000008+00:00",
         ])
     if tname == "filesize":
-        return rnd.choice([0, 1, 1023, 1024, 10 ** 6, 5 * 2 ** 40, -5, 10 ** 16, 2 * 10 ** 17, rnd.randint(0, 10 ** 12)])
+        return rnd.choice([0, 1, 1023, 1024, 10 ** 6, 5 * 2 ** 40, -5, 10 ** 16, 2 * 10 ** 17, 2 ** 70, rnd.randint(0, 10 ** 12)])
     if tname == "unix_file_mode":
         return rnd.choice([0, 0o644, 0o100755, 0o7777])
     if tname == "digest":
@@ -996,9 +995,6 @@ def replay_witnesses(ctx, kf, workdir):
             ctx.notes.append("known finding %s no longer reproduces (%s)" % (fid, detail))
 
     p = lambda n: os.path.join(workdir, n)  # noqa: E731
-    # 1 csv strict encoder
-    data, err, en = run_writer("csvfile", p("w1.csv"), [D(s="a\udcff", n=1, _generated=TS)], {})
-    hit("C20-csv-strict-encoder", en == "UnicodeEncodeError", "csv writer output %r" % (data,))
     # 2 line writer raw line break
     data, err, en = run_writer("line", p("w2.line"), [D(s="a\nb", n=1, _generated=TS)], {"fields": "s"})
     hit("C20-line-raw-linebreak", data is not None and data.count(b"\n") == 3, "line writer output %r" % (data,))
@@ -1012,17 +1008,44 @@ def replay_witnesses(ctx, kf, workdir):
     outs = [run_writer(sch, p("w5." + sch), [D(s="\ud800", n=1, _generated=TS)], {"format_spec": "{s}"} if sch == "text" else {})[2]
             for sch in ("csvfile", "line", "text")]
     hit("C20-unencodable-surrogate", outs == ["UnicodeEncodeError"] * 3, "exceptions %r" % (outs,))
-    # 6 filesize whose text form raises
-    outs = [run_writer(sch, p("w6." + sch), [F(size=2 * 10 ** 17, _generated=TS)], {})[2] for sch in ("csvfile", "line", "text")]
-    hit("C20-filesize-text-form-raises", all(o is not None for o in outs), "exceptions %r" % (outs,))
-    # 7 a member field called `name` is shadowed by the GroupedRecord's own attribute
+    return seen
+
+
+def regression_checks(rep, workdir, only=None):
+    """the three defects repaired in /repo (known_findings.d/C20.json `fixed`): their failing inputs must stay repaired"""
     from flow.record import RecordDescriptor
     from flow.record.base import GroupedRecord
-    N = RecordDescriptor("w/named", [("string", "name")])
-    g = GroupedRecord("grp", [N(name="field-value", _generated=TS)])
-    data, err, en = run_writer("csvfile", p("w7.csv"), [g], {"fields": "name"})
-    hit("C20-grouped-record-attribute-shadow", data is not None and py_csv_rows(data) == [["name"], ["grp"]], "csv output %r" % (data,))
-    return seen
+    D, F = witness_records()
+    p = lambda n: os.path.join(workdir, n)  # noqa: E731
+    if only in (None, "csv-escaped-byte"):
+        data, err, en = run_writer("csvfile", p("g1.csv"), [D(s="a\udcff", n=1, _generated=TS)], {"fields": "s"})
+        if data != b"s\r\na\xff\r\n":
+            rep.fail(dict(writer="csv", cls="escaped-byte-surrogate"),
+                     "CsvfileWriter on the valid record <w/rec s='a\\udcff'> (a surrogate-escaped byte): %s, expected the bytes "
+                     "b's\\r\\na\\xff\\r\\n'" % (err or "wrote %r" % (data,)),
+                     dict(kind="regression", which="csv-escaped-byte", error=err, output=None if data is None else data.hex()))
+    if only in (None, "filesize-huge"):
+        for sch in ("csvfile", "line", "text"):
+            try:
+                r = F(size=2 * 10 ** 17, _generated=TS)
+                data, err, en = run_writer(sch, p("g2." + sch), [r], {})
+            except Exception as e:  # noqa
+                data, err = None, "%s: %s" % (type(e).__name__, e)
+            if data is None:
+                rep.fail(dict(cls="value-text-form-raises", type="filesize"),
+                         "%s writer on the valid record <w/fs size=filesize(2*10**17)>: %s" % (sch, err),
+                         dict(kind="regression", which="filesize-huge", writer=sch, error=err))
+                break
+    if only in (None, "grouped-name"):
+        N = RecordDescriptor("w/named", [("string", "name")])
+        g = GroupedRecord("grp", [N(name="field-value", _generated=TS)])
+        data, err, en = run_writer("csvfile", p("g3.csv"), [g], {"fields": "name"})
+        rows = py_csv_rows(data) if data is not None else None
+        if rows != [["name"], ["field-value"]]:
+            rep.fail(dict(cls="grouped-attr-shadow"),
+                     "CsvfileWriter on GroupedRecord('grp', [<w/named name='field-value'>]) with fields=name: %s, expected rows "
+                     "[['name'], ['field-value']]" % (err or "rows %r" % (rows,)),
+                     dict(kind="regression", which="grouped-name", error=err, got=rows))
 
 
 # ------------------------------------------------------------------------------------------------
@@ -1162,6 +1185,11 @@ def search(ctx, reason):
     rep = Report(ctx, kf, reason)
     try:
         replay_witnesses(ctx, kf, _workdir(ctx))
+        with warnings.catch_warnings():
+            warnings.simplefilter("ignore")
+            regression_checks(rep, _workdir(ctx))
+        if rep.reported:
+            return True
         # the model alone (no generated facts needed: the cases use pinned_cfg); a generator name that matches
         # nothing keeps the broken translator from failing this build
         b = core.coq_build(["model/Csv.vo", "lib/CaseLib.vo"], gens=["__model_only__"])
@@ -1209,17 +1237,10 @@ def run(ctx):
         "C20_csv_layout assumes keys_agree: records with equal descriptors have the same selected field names (the slots "
         "of a record class are a function of its descriptor); the model itself (csvw_run) does not assume it",
         "a str holding a surrogate outside U+DC80..U+DCFF is not encodable by any handler the writers use; listed as a known finding",
+        "the failing inputs of the three defects repaired in /repo (687c7e7, 3c70cb7, 0f4063a) are re-executed on every run and must stay repaired",
     ]
     if not ok:
         return
-    # witnesses that a repair of /repo makes false live in props/C20_findings.v: informational only
-    fb = core.coq_build(["props/C20_findings.vo"], gens=["gen_text"])
-    if fb["ok"]:
-        pa = core.print_assumptions("C20_findings", FINDING_THEOREMS, ctx.work)
-        for t in FINDING_THEOREMS:
-            ctx.coverage["trusted_base"].append("Print Assumptions %s: %s" % (t, pa.get(t, "?")))
-    else:
-        ctx.notes.append("props/C20_findings.v no longer checks (%s): the CSV strict-encoder finding does not reproduce at model level" % fb["failed"])
     if ctx.tier == "thorough":
         rc, out = core.sh(["coqchk", "-silent", "-o", "-R", str(core.COQ), "FR", "props/C20.vo"], cwd=str(core.COQ), timeout=900)
         summary = " ".join(out.split())[-400:]
@@ -1231,6 +1252,9 @@ def run(ctx):
         warnings.simplefilter("ignore")
         replay_witnesses(ctx, kf, _workdir(ctx))
     rep = Report(ctx, kf)
+    with warnings.catch_warnings():
+        warnings.simplefilter("ignore")
+        regression_checks(rep, _workdir(ctx))
     terms, metas, failing, err = correspondence(ctx, rep)
     if err:
         ctx.violation("correspondence shards did not evaluate: " + err[:300], dict(kind="coq-eval", log=err), no_input=True)
@@ -1296,6 +1320,10 @@ def replay(obj):
                 out = str(work / "out")
                 os.makedirs(out, exist_ok=True)
                 run_sequence(rctx, rep, rnd, idx, script, out)
+            elif kind == "regression":
+                out = str(work / "out")
+                os.makedirs(out, exist_ok=True)
+                regression_checks(rep, out, only=obj.get("which"))
             elif kind == "normalize":
                 from flow.record.base import RE_VALID_FIELD_NAME, normalize_fieldname
                 nm = obj["name"]
